@@ -412,7 +412,7 @@ class Ry(Rotation):
     def array(self):
         half_theta = self.modules.pi * self.phase
         sin, cos = self.modules.sin(half_theta), self.modules.cos(half_theta)
-        return Tensor.np.array([[cos, -1 * sin], [sin, cos]])
+        return Tensor.np.array([[cos, sin], [-1 * sin, cos]])
 
 
 class Rz(Rotation):
@@ -585,7 +585,7 @@ H = QuantumGate(
 S = QuantumGate('S', 1, [1, 0, 0, 1j])
 T = QuantumGate('T', 1, [1, 0, 0, numpy.exp(1j * numpy.pi / 4)])
 X = QuantumGate('X', 1, [0, 1, 1, 0], _dagger=None)
-Y = QuantumGate('Y', 1, [0, -1j, 1j, 0])
+Y = QuantumGate('Y', 1, [0, 1j, -1j, 0])
 Z = QuantumGate('Z', 1, [1, 0, 0, -1], _dagger=None)
 CX = Controlled(X)
 
